@@ -1460,7 +1460,7 @@ class Memoer(Tymee):
                     vid = self.vids.get(mid.decode()) # if not then get from .vids
                     vid = vid.encode() if vid is not None else b""
             elif code in AckDex:
-                pass
+                gc = None  # not provided in this gram
             else:
                 raise hioing.MemoerError(f"Invalid {code=}")
 
@@ -1498,7 +1498,7 @@ class Memoer(Tymee):
                     vid = self.vids.get(mid.decode()) # if not then get from .vids
                     vid = vid.encode() if vid is not None else b""
             elif code in AckDex:
-                pass
+                gc = None  # not provided in this gram
             else:
                 raise hioing.MemoerError(f"Invalid {code=}")
 
@@ -1592,7 +1592,9 @@ class Memoer(Tymee):
 
         try:
             mid, vid, gn, gc = self.pick(gram)  # parse and strip off head leaving body
-        except hioing.MemoerError as ex: # invalid gram so drop
+        except (hioing.MemoerError, KeyError, ValueError) as ex: # invalid gram so drop
+            # KeyError: unknown code or non base64 char, ValueError: invalid
+            # base64 padding or utf-8 in head parts
             # may be bad signature when signed or unrecognized header format
             logger.error("Invalid Memoer gram from %s.\n %s.", src, ex)
             return True  # did receive data so can try again now
